@@ -37,7 +37,7 @@ Broken == 9
 Id(w, i) == 100 * w + 10 * i
 
 VARIABLES
-    script,      \* frozen: per worker [tests: Seq("ok"|"er"|"raw"), raises: no | exc | base, route: a code or "none"];
+    script,      \* frozen: per worker [tests: Seq("ok"|"er"|"raw"|"rawn"|"rawt"), raises: no | exc | base, route: a code or "none"];
                  \* route codes need NOT be distinct: make_tests may give several workers the same code (or None)
     makeFault,   \* frozen: NoFault or k: make_tests raises after yielding k sub-suites
     intrAt,      \* frozen: NoFault or j: the j-th (0-based) queue.get() raises KeyboardInterrupt
@@ -70,6 +70,9 @@ EventsOf(w, i, kind) ==
     CASE kind = "ok"  -> << StatusMsg(w, Id(w, i), "inprogress", FALSE), StatusMsg(w, Id(w, i), "success", FALSE) >>
       [] kind = "er"  -> << StatusMsg(w, Id(w, i), "inprogress", FALSE), StatusMsg(w, Id(w, i), "fail", FALSE) >>
       [] kind = "raw" -> << StatusMsg(w, Id(w, i), "success", TRUE) >>
+      \* raw events that spell the timestamp keyword out: explicitly None (must still be stamped) / a real time
+      [] kind = "rawn" -> << StatusMsg(w, Id(w, i), "success", FALSE) >>
+      [] kind = "rawt" -> << StatusMsg(w, Id(w, i), "success", FALSE) >>
 BrokenEvents(w) == << StatusMsg(w, Id(w, Broken), "inprogress", FALSE) >>
                    \o [j \in 1..NFile |-> StatusMsg(w, Id(w, Broken), "file", FALSE)]
                    \o << StatusMsg(w, Id(w, Broken), "fail", FALSE) >>
